@@ -460,6 +460,29 @@ def key_accessor_rule(F, rep):
         op = fn[len(W) + 2:].split("::")[0]
         labs = {l[4:] for l in a.get(1, set()) if l.startswith("acc:")}
         per_op.setdefault(op, set()).update(labs)
+    # per map: which accessors' values are used as its keys (the map = the Workspace field the receiver designates)
+    import mirutil
+    from props import c12
+    adt = F.adts.get(W)
+    fields = [f["name"] for f in adt["variants"][0]["fields"]] if adt else []
+    per_map = {}
+    for (sname, fn, line), a in tt.site_args.items():
+        labs = {l[4:] for l in a.get(1, set()) if l.startswith("acc:")}
+        b = F.bodies.get(fn)
+        if not labs or b is None:
+            continue
+        B = mirutil.Body(F, b)
+        for bi, c in F.body_calls(b):
+            if c.get("line") == line and MAPOP.match(c["f"].get("p") or "") and c["args"]:
+                fld = c12.locked_field(B, c["args"][0], fields)
+                if fld:
+                    per_map.setdefault(fld, set()).update(labs)
+    mixed = {m: sorted(ls) for m, ls in per_map.items() if len(ls) > 1}
+    if mixed:
+        rep.violation(rid, "key-accessors:per-map", "; ".join("the map `%s` is keyed with values of Definitions::%s(): a key obtained through one accessor is looked up in a map that is filled through another"
+                                                               % (m, "() and ".join(ls)) for m, ls in sorted(mixed.items())), FILE)
+    elif per_map:
+        rep.ok(rid, "key-accessors:per-map", "; ".join("%s <- %s()" % (m, list(ls)[0]) for m, ls in sorted(per_map.items())))
     vocab = per_op.get("add", set())
     if not vocab:
         rep.undecided(rid, "key-accessors", "no key of a map operation in Workspace::add derives from a Definitions accessor")
